@@ -344,6 +344,8 @@ func (c *MapCode) ToOpcode(ctx *compileContext) Opcodes {
 	ctx.incIndex()
 
 	keyCodes := c.key.ToOpcode(ctx)
+	// like a value, a key is reached through the address of its slot in the map
+	keyCodes.First().Flags |= IndirectFlags | MapKeyFlags
 
 	value := newMapValueCode(ctx, c.typ.Elem(), header)
 	ctx.incIndex()
